@@ -187,7 +187,11 @@ def call_value(eng, f, args, kwargs, node, fr):
                 from .contract import apply_contract
                 return apply_contract(eng, con, f.node, args, kwargs, node, fr)
             if con is None and qual not in eng.reg.inline and not eng.reg.inline_all:
-                raise OutOfSubset("call to %s: no contract and not marked inline" % qual, node)
+                # a waitress function nobody wrote a contract for (e.g. a helper extracted by a refactoring): execute its body in
+                # place -- that is exact, only more expensive than a contract -- and say so in the evidence
+                note = "inlined without a contract: %s" % qual
+                if note not in eng.notes:
+                    eng.notes.append(note)
             modname = qual.split(".")[0]
             return eng.call_function_node(modname, qual, f.node, args, dict(kwargs), node, fr)
         if k == "closure":
